@@ -13,7 +13,7 @@ CLASSES = {
     'C03': {'op_dims', 'mono_dims', 'linear_dims', 'components_dims', 'not_equivariant'},
     'C04': {'op_semantics', 'twin_mismatch', 'twin_value_differs', 'op_not_native'},
     'C05': {'not_inverse', 'round_trip'},
-    'C18': {'definition_missing', 'definition_formula', 'tensor_definition', 'formula_value', 'tensor_definition_value'},
+    'C18': {'definition_missing', 'definition_formula', 'definition_solved_form', 'tensor_definition', 'formula_value', 'tensor_definition_value'},
 }
 ROLE = {'IsobaricHeatCapacity': 1, 'SpecificIsobaricHeatCapacity': 1, 'IsochoricHeatCapacity': 2, 'SpecificIsochoricHeatCapacity': 2,
         'GasConstant': 3, 'SpecificGasConstant': 3, 'HeatCapacityRatio': 4}
@@ -291,7 +291,20 @@ def run(n=40):
     pairs = derive_pairs(rels)
     byname = {r['name']: r for r in rels}
     defs = [{'e': 'Def', 'def': k, 'rel': byname[n]['id'] if n in byname else -1} for k, n in sorted(DEF_SIG.items())]
-    facts += twins + pairs + defs + tdefs
+    # every other relation among exactly the quantity types of a named definition (its operator twin, the members and constructors
+    # that solve it for another variable)
+    solved = []
+    for dkey, dname in sorted(DEF_SIG.items()):
+        if dname not in byname or dkey.endswith('_member'):
+            continue
+        d = byname[dname]
+        tset = sorted([d['ret']] + d['args'])
+        if len(set(tset)) != len(tset):
+            continue
+        for r in rels:
+            if r['id'] != d['id'] and sorted([r['ret']] + r['args']) == tset and 'Number' not in tset:
+                solved.append({'e': 'Solved', 'def': dkey, 'rel': r['id']})
+    facts += twins + pairs + defs + tdefs + solved
     wd = C.work_dir('rel')
     facts += numeric_layer(exe, rels, fps, qs, stddim, twins, pairs, wd, n)
     fp_ = C.write_ndjson(os.path.join(wd, 'relfacts.ndjson'), facts)
